@@ -2423,7 +2423,10 @@ class Tuplet(TimedObject):
         self.actual_type = actual_type
         self.normal_type = normal_type
         # maintain a list of attributes to update when cloning this instance
-        self._ref_attrs.extend(["start_note", "end_note"])
+        # (the private attributes: replacing references in a copy must not go
+        # through the property setters, which unset the start/end of the copy
+        # and append it to the notes' lists)
+        self._ref_attrs.extend(["_start_note", "_end_note"])
 
     @property
     def start_note(self):
